@@ -267,7 +267,7 @@ def run(tier, out):
             table = zone_table(ns, name)
             for i in range(1, len(table) - 1):
                 before, t1, o1, t2, after = table[i - 1][1], table[i][0], table[i][1], table[i + 1][0], table[i + 1][1]
-                if before == after and before != o1 and before % 60 == 0 and t2 - t1 <= (20 if tier == "quick" else 45) * 1440:
+                if before == after and before != o1 and before % 60 == 0 and t2 - t1 <= 20 * 1440:
                     doubles.append((name, table, t1, t2))
         if tier == "quick":
             doubles = rng.sample(doubles, min(6, len(doubles)))
@@ -275,7 +275,7 @@ def run(tier, out):
             raise MachineryError("no zone with two close transitions found in pytz's tables")
         cases += doubles
         events = record(ns, rng, cases)
-        comb = combine_events(ns, rng, cases, 10 ** 6, 40 if tier == "quick" else 1500)
+        comb = combine_events(ns, rng, [c for c in cases if len(c) == 3], 10 ** 6, 40 if tier == "quick" else 1500)
         events += comb
         trace = wd + "/c11.ndjson"
         tracecheck.write_trace(trace, events, keys=("tid", "seq", "ev", "name", "zone", "local_t", "local_v", "utc_t", "utc_v",
